@@ -213,6 +213,7 @@ def run(ctx):
     # ---- the same search loop on BINARY64 score tables of the real built-in scorers (Model/Generic.v at Model/GenericF.v), bit for bit ----
     from harness import floatstreams
     floatstreams.cbs_float_stream(ctx, ctx.n(24, 120))
+    floatstreams.gcov_many_columns_stream(ctx, "CircularBinarySegmentation(GaussianCovCost)", lambda: __import__("skchange.anomaly_detectors", fromlist=["CircularBinarySegmentation"]).CircularBinarySegmentation(anomaly_score=__import__("skchange.costs", fromlist=["GaussianCovCost"]).GaussianCovCost(), min_segment_length=45, max_interval_length=150), ctx.n(1, 2))
     # the DEFAULT configuration on series of realistic length and width, decided by the property-level twin of the model
     floatstreams.cbs_default_scale_stream(ctx, ctx.n(2, 10))
 
